@@ -72,7 +72,14 @@ impl BlobReader {
         let meta = self
             .read_bytes(header.meta_size() as usize)
             .with_context(|| "read record meta")?;
-        let meta = match bincode::deserialize(&meta) {
+        // The metadata has to take exactly the bytes the header gives it: bincode ignores trailing bytes, and a map
+        // that decodes shorter would be written back shorter by the recovery, under a header with the old size
+        let decoded = bincode::deserialize::<Meta>(&meta).and_then(|m| match bincode::serialized_size(&m) {
+            Ok(size) if size == header.meta_size() => Ok(m),
+            Ok(size) => Err(bincode::ErrorKind::Custom(format!("{} bytes decoded, {} stored", size, header.meta_size())).into()),
+            Err(err) => Err(err),
+        });
+        let meta = match decoded {
             Ok(meta) => meta,
             Err(err) => {
                 // The header is valid, so its sizes can be trusted: the reader is left at the next record,
